@@ -242,6 +242,7 @@ def run_alias(case):
     main.reset()
     proto = {k: dec(v) for k, v in case.get('proto', {}).items()}
     res = {}
+    input_changed = None
     for mode in ('clean', 'mutated'):
         pat = build(case['pat'])
         strm = pat.__stream__()
@@ -249,7 +250,12 @@ def run_alias(case):
         try:
             for _ in range(64):
                 inev = proto.copy()
+                before = dict(inev)
                 ev = strm.next(inev)
+                if mode == 'clean' and input_changed is None and (ev is inev or dict(inev) != before):
+                    # the stream wrote into (or handed back) the caller's own dict
+                    input_changed = {'event_index': len(evs), 'same_object': ev is inev,
+                                     'keys_added': sorted(set(inev) - set(before))}
                 evs.append(canon_event(ev))
                 if mode == 'mutated':
                     ev['zz_alias'] = 7
@@ -261,7 +267,8 @@ def run_alias(case):
             evs.append(['end', type(ex).__name__])
         res[mode] = evs
     main.reset()
-    return {'clean': res['clean'], 'mutated': res['mutated'], 'proto_unchanged': 'zz_in' not in proto}
+    return {'clean': res['clean'], 'mutated': res['mutated'], 'proto_unchanged': 'zz_in' not in proto,
+            'input_changed': input_changed}
 
 
 def main_():
